@@ -146,7 +146,7 @@ def run(ctx, deep=False):
 
     ctx.rule = (
         "random object-graph histories (1-3 rounds of 2-8 (quick) / 1-4 rounds of 2-12 (thorough) mutations: create, re-parent, delete with "
-        "cascades, orphan, many-to-many link/unlink, post_update reference, rename) over fifteen relationship families (harness/lib_graph.py), each round ended by "
+        "cascades, orphan, many-to-many link/unlink, post_update reference, rename) over sixteen relationship families (harness/lib_graph.py), each round ended by "
         "flush or commit on SQLite with foreign_keys=ON; every flush's registered dependencies are compared with the Lean tables; "
         "non-trivial = more than two DML statements"
     )
@@ -171,7 +171,7 @@ def replay(ctx, obj):
     from harness import lib_graph_check as K
 
     rounds = obj["case"]["rounds"]
-    res, f = K.replay_case(rounds)
+    res, f = K.replay_case(rounds, attempts=12)  # order-dependent failures: see replay_case
     for rd, r in zip(rounds, res):
         print("round:", rd["muts"], "->", rd["end"])
         print("   statements:", [p[0] + " " + p[1] for p in r["params"]])
